@@ -908,7 +908,7 @@ def run(pids=None, jobs=16, root=None, quiet=False):
                              None, suffix, None, None, src))
     # generated refactorings of the whole package (tools/gen_refactor.py)
     for mode in ("rettemp", "ifinvert", "eqswap", "cmpswap", "kwreverse",
-                 "npfunc"):
+                 "npfunc", "lastkw"):
         for p in allp:
             if want is None or p in want:
                 todo.append(("gen", f"gen-{mode}-{p}", [p], None, mode,
